@@ -220,6 +220,17 @@ func enumerateA(tier string, emit func(string)) {
 			emit("A|redefun|" + code + "|" + strings.Join(pos, ","))
 		}
 	}
+	// maprows: the function is called by a multi-list mapcar (which may hand every call the same argument buffer) with
+	// TWO rows of arguments - the vector under test first, then the same vector with other numbers; the result of the
+	// FIRST call is what is compared: nothing bound in one call (the &rest list above all) may be changed by the next.
+	for _, sh := range shapes(b) {
+		code := sh.code()
+		argVectors(sh, boundsA{maxPairs: 2}, func(args string) {
+			if args != "" {
+				emit("A|maprows|" + code + "|" + args)
+			}
+		})
+	}
 	for _, s := range defaultFormCases {
 		emit(s)
 	}
@@ -382,6 +393,22 @@ func execA(spec string) (res engine.Result) {
 			call = "(apply '" + name + " " + at[0] + " (list " + strings.Join(at[1:], " ") + "))"
 		}
 		src += call
+		val, err = lisp.EvalIn(scope, call)
+	case "maprows":
+		if !define() {
+			return
+		}
+		cols := make([]string, len(args))
+		for i, a := range args {
+			second := a.text()
+			if a.kw == "" && !a.isNil {
+				second = strconv.Itoa(a.val + 700)
+			}
+			cols[i] = "(list " + a.text() + " " + second + ")"
+		}
+		call := "(let ((rows (mapcar '" + name + " " + strings.Join(cols, " ") + "))) (tr 'after) (car rows))"
+		src += call
+		res.Hit("A:called-twice-by-a-multi-list-mapcar")
 		val, err = lisp.EvalIn(scope, call)
 	case "funcall":
 		src = "(funcall (lambda " + ll + " " + body + ") " + strings.Join(at, " ") + ")"
